@@ -11,6 +11,21 @@ E3 = "exhaustive / preemption-bounded prange schedule enumeration on source-deri
 
 # id -> (built, category, technique, text, note, design_ref)
 CHECKS = {
+    "C01": (
+        True,
+        "exploration",
+        E1 + " + M1 RAMSES writer",
+        "Every AMR tree of 11 (quick) / 15 (thorough) small-scope families (1-D L<=3/4, 2-D L<=2 complete and L=3 capped, 3-D L<=2 "
+        "complete and L=3 capped, levelmin>1 variants) under 3 fixed configurations; a core subset crossed with every "
+        "configuration within 2 deviations of a baseline over 13 dimensions (ncpu, oct ownership, ghost population and son "
+        "flags, boundary regions/nx, noutput, bound-key width, hydro/grav/rt variable lists, unit systems, output "
+        "addressing incl. -1 with a decoy, ordering type); and every 2-cpu ownership assignment of small trees. Each case "
+        "is written byte-exactly by the M1 writer, loaded by the real loader and compared as a multiset of rows "
+        "(level, centre, dx, cpu, every variable in CGS, unit dimensions, vector assembly, mass, B_field, meta). Poisoned "
+        "ghost copies make any foreign row visible. Exhaustive within those bounds; not a proof beyond them.",
+        "Trusted: the M1 writer (my reading of the RAMSES format), pint's unit-expression parser, M2 unit table.",
+        "DESIGN.md §3 C01",
+    ),
     "C06": (
         True,
         "model_checking",
